@@ -41,6 +41,18 @@ type Hist struct {
 	Def    bool
 	Extra  []any
 	Intern *Interner
+	// C12, in-place rewriting of documents (convopts.go): the W token of the conv step under construction ("" = none).
+	WTok string
+	// C12: distribution of the derived probes (harvest)
+	ProbeStats map[string]int
+}
+
+// wtok is slot 7 of a conv step: "0", or the held-examples measurement of ConvW.
+func (h *Hist) wtok() string {
+	if h.WTok == "" {
+		return "0"
+	}
+	return h.WTok
 }
 
 // CallRec records one call so that a history can be replayed on a fresh family of schemas.
@@ -87,18 +99,54 @@ func (h *Hist) acc(s any) string {
 	return AccessorState(s)
 }
 
-// harvest adds the member-derived probes of s (deep copies) to the history's probe set.
+// harvest adds the member-derived probes of s (deep copies) and the probes derived from s's own boundary values (read
+// off an isolated twin: boundary.go) to the history's probe set, and records their distribution.
 func (h *Hist) harvest(s any) {
 	have := map[string]bool{}
 	for _, p := range h.Extra {
 		have[fmt.Sprintf("%T|%s", p, Canon(p))] = true
 	}
+	if h.ProbeStats == nil {
+		h.ProbeStats = map[string]int{}
+	}
 	for _, p := range MemberProbes(s) {
 		if k := fmt.Sprintf("%T|%s", p, Canon(p)); !have[k] && len(h.Extra) < 48 {
 			have[k] = true
 			h.Extra = append(h.Extra, p)
+			h.ProbeStats["probe:member-derived"]++
 		}
 	}
+	twin := Replay(h.Base, h.Calls)
+	if twin == nil {
+		return
+	}
+	bps := BoundaryProbes(twin[len(twin)-1])
+	kind := typeCode(s)
+	if len(bps) == 0 {
+		h.ProbeStats["probes-from-bounds:none:"+kind]++
+		return
+	}
+	for b, sp := range splitOf(s, bps) {
+		h.ProbeStats["bound:"+b[:strings.Index(b+":", ":")]+":"+sp]++
+	}
+	h.ProbeStats["probes-from-bounds:some:"+kind]++
+	for _, bp := range bps {
+		if k := fmt.Sprintf("%T|%s", bp.In, Canon(bp.In)); !have[k] && len(h.Extra) < 88 {
+			have[k] = true
+			h.Extra = append(h.Extra, bp.In)
+			h.ProbeStats["probe:"+bp.Class+"-bound"]++
+		}
+	}
+}
+
+// FlushProbeStats moves the probe distribution of this history into the output's histogram.
+func (h *Hist) FlushProbeStats(o *hx.Out) {
+	for k, n := range h.ProbeStats {
+		for ; n > 0; n-- {
+			o.Count(k)
+		}
+	}
+	h.ProbeStats = nil
 }
 
 // Replay re-executes recorded calls on a fresh base and returns the live list (nil if a call no longer chains).
@@ -324,6 +372,9 @@ func OptionsFor(opt int, live []Schema, i int) jsonschema.Options {
 	if opt < len(fixed) {
 		return fixed[opt]
 	}
+	if opt >= OptCallbacksRead {
+		return callbackOptions(opt, live, i)
+	}
 	reg := core.NewRegistry[core.GlobalMeta]()
 	add := func(j int) {
 		if zs, ok := live[j].(core.ZodSchema); ok {
@@ -384,13 +435,13 @@ func (h *Hist) convCore(i, opt int, o *hx.Out) (doc, same string, changed, bagCh
 	iso := "replay-failed"
 	twin := Replay(h.Base, h.Calls)
 	if twin != nil && i < len(twin) {
-		iso = JS(twin[i], OptionsFor(opt, twin, i))
+		iso = JSOpt(opt, twin, i)
 	}
 	dtok = "0"
 	if h.Def && twin != nil && i < len(twin) {
 		dtok = h.Intern.DefCode(l.S, twin[i]) // read before the conversion; the spent twin is the scratch for classifying the accessor
 	}
-	doc = JS(l.S, OptionsFor(opt, lives, i))
+	doc = JSOpt(opt, lives, i)
 	changed, bagChanged = h.relook(o, fmt.Sprintf("conv %d", i))
 	same = "1"
 	if doc != iso {
@@ -405,7 +456,9 @@ func (h *Hist) convCore(i, opt int, o *hx.Out) (doc, same string, changed, bagCh
 			fmt.Fprintf(os.Stderr, "DOC %s live=%d opt=%d %s\n  got: %s\n  iso: %s\n", h.Base.Name, i, opt, same, doc, iso)
 		}
 	}
-	if dtok != "0" {
+	if dtok != "0" && opt == OptInplace {
+		mtok = "m-" // the Override has overwritten the member list the document shows
+	} else if dtok != "0" {
 		mtok = "m" + h.Intern.DocMembers(doc, strings.HasPrefix(dtok, "E"))
 		o.Count("class:conv-with-definition-members")
 	}
@@ -424,7 +477,7 @@ func (h *Hist) isoNondeterministic(i, opt int, first string) (string, bool) {
 		if twin == nil || i >= len(twin) {
 			return "", false
 		}
-		if d := JS(twin[i], OptionsFor(opt, twin, i)); d != first {
+		if d := JSOpt(opt, twin, i); d != first {
 			return docDiffKeys(first, d), true
 		}
 	}
@@ -461,7 +514,7 @@ func docDiffKeys(a, b string) string {
 func (h *Hist) Conv(i, opt int, o *hx.Out) {
 	l := h.Live[i]
 	_, same, changed, bagChanged, dtok, mtok := h.convCore(i, opt, o)
-	h.Steps = append(h.Steps, fmt.Sprintf("%d conv %d %s 0 %s %s 0 ToJSONSchema@%s", i, opt, dtok, l.Snap.BagState, l.Snap.ValState, shortType(l.S)))
+	h.Steps = append(h.Steps, fmt.Sprintf("%d conv %d %s 0 %s %s %s ToJSONSchema@%s", i, opt, dtok, l.Snap.BagState, l.Snap.ValState, h.wtok(), shortType(l.S)))
 	h.Verd = append(h.Verd, fmt.Sprintf("%s:%s", same, idx(changed)))
 	h.Strct = append(h.Strct, "g"+idx(bagChanged)+mtok) // which live Bags were rewritten by this conversion; the members shown
 	h.Names = append(h.Names, fmt.Sprintf("conv(%d,opt%d)", i, opt))
